@@ -188,13 +188,14 @@ val trivial : cstmt -> bool
 
 val reraise_sch : bool -> state -> oc * state
 
-val exec_sch : bool -> cstmt -> state -> oc * state
+val exec_sch : bool -> bool -> cstmt -> state -> oc * state
 
-val handle_sch : bool -> chandlers -> nat -> nat option -> state -> oc * state
+val handle_sch :
+  bool -> bool -> chandlers -> nat -> nat option -> state -> oc * state
 
 val init_state : eobj list -> nat option -> nat option -> state
 
 val run_ref : stmt -> eobj list -> nat option -> nat option -> oc * state
 
 val run_sch :
-  bool -> stmt -> eobj list -> nat option -> nat option -> oc * state
+  bool -> bool -> stmt -> eobj list -> nat option -> nat option -> oc * state
